@@ -6,6 +6,7 @@
 -/
 import Distill.Proofs.TextRender
 import Distill.Proofs.MediaRender
+import Distill.Proofs.ImageExtract
 import Distill.Gen.Funcs
 import Distill.Gen.Tables
 namespace Distill.RenderProps
@@ -172,7 +173,39 @@ theorem doc_image_urls_spec (es : List (Bool × List String)) :
     docImageURLs es = ((es.filter (·.1)).map (·.2)).flatten :=
   docImageURLs_spec es
 
+/-! ## the image extractor (model: Distill.Model.ImageExtract, stage `imageextract`) -/
+
+theorem image_extract_tie : Gen.imageExtractBodies = Gen.imageExtractBodiesExpected := by rfl
+
+/-- **C02 / C04.** What the extractor leaves of a `<picture>`: every element below it is an `img` or
+a `source`, and its direct children are elements only — no stray text, no comment — so nothing of
+the page's text or comments travels with the image clone. -/
+theorem picture_reduced (i : Nat) (t : String) (a : List Attr) (ks : List Node) :
+    (∀ x ∈ tagsL (Img.processPicture (.elem i t a ks)).kids, x = "img" ∨ x = "source") ∧
+    (∀ k ∈ (Img.processPicture (.elem i t a ks)).kids, k.isElem = true) :=
+  ⟨Img.processPicture_only_img_source i t a ks, Img.processPicture_kids_are_elements i t a ks⟩
+
+/-- **C04.** The caption taken from a figure is a `figcaption` the visibility test accepts, and
+nothing below a rejected element is ever taken; a caption the extractor creates holds one text
+node with the visible text of its base. -/
+theorem figure_caption_visible (A : CAtoms) (ks : List Node) (c : Node) (h : Img.visibleCaptionL A ks = some c) :
+    c.tag = "figcaption" ∧ visible A c.id c.tag c.attrs = true :=
+  Img.visibleCaptionL_spec A ks c h
+
+theorem hidden_caption_ignored (A : CAtoms) (i : Nat) (t : String) (a : List Attr) (ks : List Node)
+    (h : visible A i t a = false) : Img.visibleCaption A (.elem i t a ks) = none :=
+  Img.visibleCaption_hidden A i t a ks h
+
+theorem created_caption_shape (A : CAtoms) (base : Node) :
+    ∃ d, Img.createCaption A base = .elem Img.synthCaptionId "figcaption" [] [.text Img.synthCaptionTextId d] :=
+  Img.createCaption_shape A base
+
 /-! non-vacuity -/
+example : (Img.processPicture (.elem 0 "picture" [] [.text 1 "stray", .other 2 4, .elem 3 "span" [] [.text 4 "x"],
+    .elem 5 "source" [⟨"srcset", "a.webp 1x"⟩] []])).kids.map Node.tag = ["img"] := by
+  simp [Img.processPicture, Img.onlyImgSource, Img.countTagL, Img.countTag, Img.renameFirstSourceL,
+    Img.renameFirstSource, Node.kids, Node.isElem, Node.tag]
+
 def exPicture : Node :=
   .elem 0 "picture" [⟨"class", "c"⟩] [.elem 1 "source" [⟨"srcset", "a.webp 1x"⟩, ⟨"onload", "x()"⟩] [],
                                       .elem 2 "img" [⟨"src", "b.jpg"⟩, ⟨"srcset", "c.jpg 2x"⟩, ⟨"id", "i"⟩] []]
